@@ -11,7 +11,9 @@ import (
 	"encoding/json"
 	"fmt"
 	"os"
+	"sort"
 	"sync/atomic"
+	"syscall"
 
 	remoteexecution "github.com/bazelbuild/remote-apis/build/bazel/remote/execution/v2"
 	"github.com/buildbarn/bb-remote-execution/pkg/builder"
@@ -143,7 +145,10 @@ func (d *memDirectory) Mkdir(name path.Component, perm os.FileMode) error {
 		d.h.emit("write", g.App("DWrite", g.Nat(d.h.recSlot), g.Str(name.String())), g.App("DWrote", g.Bool(c == nil)))
 	}
 	if c != nil {
-		return status.Error(codes.AlreadyExists, "exists")
+		// what a real directory answers (bb-storage's localDirectory returns
+		// the errno of mkdirat; the virtual directory returns an error for
+		// which os.IsExist holds as well): callers test it with os.IsExist
+		return &os.PathError{Op: "mkdir", Path: name.String(), Err: syscall.EEXIST}
 	}
 	return nil
 }
@@ -238,6 +243,20 @@ func executeDirs(hist dhistory) (string, *hcommon.Info, error) {
 			inv),
 		&counter)
 	slots := map[int]builder.BuildDirectory{}
+	names := map[int]string{} // directory name of each open slot
+	// coverage: a request whose directory name is held by a live action
+	noteCollision := func(dig int) {
+		if dig <= 0 {
+			return
+		}
+		want := hashes[(dig-1)%len(hashes)][:16]
+		for _, n := range names {
+			if n == want {
+				info.Outs["request-for-name-in-use"]++
+				return
+			}
+		}
+	}
 	sawFailAfterMkdir, sawTwoOpen, sawExec := false, false, false
 	ctx := context.Background()
 	for _, o := range hist.Ops {
@@ -261,6 +280,7 @@ func executeDirs(hist dhistory) (string, *hcommon.Info, error) {
 				h.emit("get", opTerm, "DSkip")
 				break
 			}
+			noteCollision(o.Dig)
 			d, p, err := creator.GetBuildDirectory(ctx, dp)
 			if err != nil {
 				h.emit("get", opTerm, g.App("DErr", g.N(uint64(status.Code(err)))))
@@ -269,6 +289,7 @@ func executeDirs(hist dhistory) (string, *hcommon.Info, error) {
 				}
 			} else {
 				slots[slot] = d
+				names[slot] = p.GetUNIXString()
 				h.emit("get", opTerm, g.App("DGot", g.Str(p.GetUNIXString())))
 				if len(slots) >= 2 {
 					sawTwoOpen = true
@@ -284,6 +305,7 @@ func executeDirs(hist dhistory) (string, *hcommon.Info, error) {
 				break
 			}
 			delete(slots, slot)
+			delete(names, slot)
 			err := d.Close()
 			h.emit("close", opTerm, g.App("DClosed", g.N(uint64(status.Code(err)))))
 			if err != nil {
@@ -302,6 +324,9 @@ func executeDirs(hist dhistory) (string, *hcommon.Info, error) {
 		case "exec", "ready":
 			if _, busy := slots[slot]; busy {
 				break
+			}
+			if o.K == "exec" {
+				noteCollision(o.Dig)
 			}
 			h.runExecutor(creator, o, slot, o.K == "ready")
 			sawExec = true
@@ -326,8 +351,24 @@ func generateDirs(r *rng.R, thorough bool) json.RawMessage {
 		}
 		return fl
 	}
-	// guidance only: which slots are probably open (a get may fail)
+	// guidance only: which slots are probably open (a get may fail), and
+	// with which digest, so that overlapping actions with equal digests
+	// (same action under two instance names, worker concurrency > 1) occur
 	open := map[int]bool{}
+	openDig := map[int]int{}
+	collide := func() int {
+		var c []int
+		for sl, d := range openDig {
+			if open[sl] && d > 0 {
+				c = append(c, d)
+			}
+		}
+		if len(c) == 0 {
+			return 0
+		}
+		sort.Ints(c)
+		return c[r.Intn(len(c))]
+	}
 	pick := func(want bool) int {
 		var c []int
 		for sl := 0; sl < 4; sl++ {
@@ -349,9 +390,13 @@ func generateDirs(r *rng.R, thorough bool) json.RawMessage {
 			if r.Chance(55) {
 				o.Dig = 1 + r.Intn(len(hashes))
 			}
+			if d := collide(); d > 0 && r.Chance(30) {
+				o.Dig = d
+			}
 			o.Fl = flags(5)
 			if !o.Fl[0] && !o.Fl[1] && !o.Fl[2] {
 				open[o.Slot] = true
+				openDig[o.Slot] = o.Dig
 			}
 		case x < 72:
 			o.K = "close"
@@ -370,6 +415,9 @@ func generateDirs(r *rng.R, thorough bool) json.RawMessage {
 			o.Slot = pick(false)
 			if r.Chance(55) {
 				o.Dig = 1 + r.Intn(len(hashes))
+			}
+			if d := collide(); d > 0 && r.Chance(30) {
+				o.Dig = d
 			}
 			o.Fl = flags(8)
 			if r.Chance(60) {
